@@ -33,6 +33,9 @@ CLAIMED = {
  "C13": ("return-case dominance in the redirect validator, classification of the verdict's true-sources, shape check of the shared host predicate, sibling agreement, redirect-target provenance",
          "Every possibly-true return of the validator is dominated by parse ok, https, empty query and no '..'; its verdict is true only from configured domain/pattern matches combined as the configuration demands; the shared host predicate accepts only equality or a dot-bounded suffix; the three sibling sites use that predicate on Hostname(); the handler redirects only to the validated string on the true edge.",
          "net/url semantics (user-info, ports, encodings) are trusted; operator-configured regular expressions are not analysed.", "DESIGN.md §3 C13"),
+ "C14": ("guard-fact dominance of the backend dispatcher by the limiter, return-case analysis of the limiter, clamp recognition at the limiter's construction, must-lockset analysis of the TOTP spacing section, discarded-result and write-back rules for the lock-out record",
+         "Every password backend lookup is dominated by a consumed limiter token (Allow() true) and the excess is answered 429; the limiter is built once from clamped configuration; the TOTP validator reads/tests/updates the last-check time in one uninterrupted critical section with a constant >= 2 s and tests spacing and lock-out before any secret use; lock-out bookkeeping is stored, not discarded.",
+         "The quantitative rate (x/time/rate) and timing are trusted / not decided; sync.Mutex provides exclusion.", "DESIGN.md §3 C14"),
  "C12": ("dominance of the token-minting calls by the conjunction of code/client/expiry/redirect/type facts, decision-structure classification of the client-authentication flag, shape check of the PKCE verifier, store-provenance of token fields",
          "Both minting calls of the token endpoint are dominated on all paths by the verified code, client authentication, client==code.sub, strict expiry, equal redirect_uri and the code type; the authentication flag is true only from PKCE (secret-less client) or a non-empty secret; the PKCE verifier compares against the challenge decrypted from the same code; token/code/userinfo fields have the stated provenance (field-store analysis).",
          "Trusts go-jose and JSON encoding. Field provenance is judged per store into the token structs in the current source.", "DESIGN.md §3 C12"),
